@@ -41,6 +41,16 @@ CHECKS["C12"] = dict(level="other", design="4/C12",
 CHECKS["C20"] = dict(level="other", design="4/C20",
    text="Solver-decided on the stub file system: op-codes (create / remove / remove-of-a-file-already-deleted / flush / child create), path selectors and the position where the with-body raises are symbolic, so every history of length<=L with every exception point is a path; after each step returned paths are distinct and exist, list(pool) == created-and-not-removed == files on disk among those created, and nothing exists after flush or after leaving the context by any route (single- and multi-process pools, with and without a directory). FilePool: symbolic subset of paths, modes r/w, raising body: open handle per path inside, every handle ever opened closed afterwards.",
    note="Trusted: CrossHair+z3; SymFS contracts for tempfile/os.remove/Manager().list() (real process boundary of multi_proc outside the claim; counterexamples replayed with the real tempfile/os/multiprocessing). Bounds: L<=4 quick / <=5 thorough.")
+BMC = "bounded model checking of the real code with a symbolic schedule: CPython bytecode of the repository's functions executed symbolically into control-flow automata, z3 (bit-blast + SAT) decides assertion / deadlock / unwinding queries over all interleavings and input lengths within the bound; counterexample schedules replayed on the real classes with gated primitives"
+CHECKS["C01"] = dict(level="model_checking", design="4/C01", engine="bmc", technique=BMC,
+   text="Decided by z3 over ALL interleavings of consumer, feeding thread and workers and all input lengths n<=N per configuration (workers, chunk size, queue bounds, imap / imap_unordered): the consumer's output equals [f(x) for x in data] (unordered: chunk-wise permutation) and no result chunk stays in the queue. A configuration counts only if the unwinding query proves that no execution is longer than K steps and a witness run exists.",
+   note="Trusted: z3; the symbolic bytecode VM (vf/bmc/vm.py) and the primitive contracts (atomic manager queues, Event, Lock, thread/process start/join); identity-tag functor. Bounds: quick n<=1, 1 worker, chunk 1; thorough n<=2, workers<=2, chunk<=2, results bound 1, two calls.")
+CHECKS["C02"] = dict(level="model_checking", design="4/C02", engine="bmc", technique=BMC,
+   text="Decided by z3 on the same regenerated transition system: no reachable state in which the fully-consuming scenario has not finished and no thread can move (blocking calls are disabled transitions), and every execution is shorter than K steps (unwinding query unsat), for all interleavings - which includes arbitrarily late scheduling of the feeding thread - and all n<=N, with and without result-queue flow control.",
+   note="As C01. A deadlock schedule found by the solver is replayed on the real classes; the replay controller confirms it when every live thread waits at a disabled operation.")
+CHECKS["C05"] = dict(level="model_checking", design="4/C05", engine="bmc", technique=BMC,
+   text="Decided by z3 over all interleavings of the FunctorMap parent loop with its worker processes and all n<=N: output == map(f, data) in order, queues free of payload afterwards, no deadlock, bounded execution; a second call on the same FunctorMap is independent.",
+   note="Trusted: z3, VM, primitive contracts (multiprocessing.Queue as atomic bounded FIFO). Bounds: quick n<=2, workers<=2, chunk<=2, one 2-call configuration; thorough n<=3. mul_p_map itself is not encoded yet (same protocol).")
 NOT_YET = {}
 def main():
     props = [json.loads(l)["id"] for l in open(os.path.join(ROOT, "properties.jsonl"))]
